@@ -135,6 +135,15 @@ def main():
         sh("git", "checkout", "--", ".")
         open("/verif/mutants/%s.diff" % name, "w").write(d)
         table.append((name, props))
+    # hand-written multi-hunk mutants: mutants/handwritten/<name>.diff, properties in the first line
+    # of <name>.props
+    hw = "/verif/mutants/handwritten"
+    for fn in sorted(os.listdir(hw)) if os.path.isdir(hw) else []:
+        if fn.endswith(".diff"):
+            name = fn[:-5]
+            import shutil
+            shutil.copy(os.path.join(hw, fn), "/verif/mutants/%s.diff" % name)
+            table.append((name, open(os.path.join(hw, name + ".props")).read().split()))
     with open("/verif/mutants/INDEX.tsv", "w") as f:
         for n, p in table:
             f.write("%s\t%s\n" % (n, ",".join(p)))
